@@ -124,3 +124,43 @@ func Main(prop, checkFn, rule string, body func(x *Ctx)) {
 	run.Prelude = strings.Join(x.cfgs, "\n")
 	run.Finish()
 }
+
+// RandomStreams emits nValid valid-by-construction packets (position kinds in
+// rotation, or only `kinds`) and nMut mutated ones (mutations in rotation over
+// muts, or all of Mutations; every fifth case gets a second, random mutation)
+// over nCfg random configurations.
+func (x *Ctx) RandomStreams(nCfg, nValid, nMut int, kinds, muts []string) {
+	if len(kinds) == 0 {
+		kinds = Kinds
+	}
+	if len(muts) == 0 {
+		muts = Mutations
+	}
+	type cf struct {
+		name string
+		rt   *Router
+	}
+	var cfgs []cf
+	for i := 0; i < nCfg; i++ {
+		c := GenConfig(x.Rng.Fork(uint64(1000 + i)))
+		name, rt := x.AddConfig(c)
+		cfgs = append(cfgs, cf{name, rt})
+	}
+	for i := 0; i < nValid; i++ {
+		r := x.Rng.Fork(uint64(i))
+		c := cfgs[i%nCfg]
+		sc := GenValid(r, c.rt.Cfg, x.Now, kinds[i%len(kinds)])
+		x.Emit("valid", c.name, c.rt, sc)
+	}
+	for i := 0; i < nMut; i++ {
+		r := x.Rng.Fork(uint64(i))
+		c := cfgs[i%nCfg]
+		sc := GenValid(r, c.rt.Cfg, x.Now, kinds[(i/len(muts))%len(kinds)])
+		m := Mutate(r, sc, c.rt.Cfg, x.Now, muts[i%len(muts)])
+		if i%5 == 4 {
+			m += "+" + Mutate(r, sc, c.rt.Cfg, x.Now, "")
+			sc.Mut = m
+		}
+		x.Emit("mutated", c.name, c.rt, sc)
+	}
+}
